@@ -158,6 +158,15 @@ def random_series(rng, n):
         x = np.round(rng.normal(size=n), 1)
     name = ['noise', 'intwalk', 'flatends', 'clipped', 'plateau', 'fewlevels', 'rounded'][k]
     r = rng.random()
+    if r > 0.9:       # huge dynamic range inside one record: one (or the first) sample is 1e3..1e12 times larger than the steps of
+        # the rest (a rebase such as values - values[0] would round the small steps away)
+        x = x * 10 ** rng.uniform(-12, -3)
+        j = 0 if rng.random() < 0.6 else int(rng.integers(len(x)))
+        x[j] = rng.choice([-1.0, 1.0]) * 10 ** rng.uniform(0, 9)
+        if rng.random() < 0.5:
+            x[1:] += 0.5
+        name += '-outlier'
+        return x, name
     if r < 0.15:      # smooth, finely sampled: steps near the extremum are far below 1e-8 but not zero
         x = np.cos(10 ** rng.uniform(-5, -2) * (np.arange(n) - rng.uniform(0, n))) * 10 ** rng.uniform(-3, 3)
         name = 'smooth-fine'
